@@ -50,10 +50,10 @@ def parse_set(name):
 
 def prepare_copy(scratch):
     dst = os.path.join(scratch, "k")
-    if os.path.exists(os.path.join(dst, "Cargo.toml")):
-        return dst
     os.makedirs(dst, exist_ok=True)
-    subprocess.run(["rsync", "-a", "--exclude", "target", "--exclude", ".git", REPO + "/", dst + "/"], check=True)
+    # always re-synchronise with the working tree (incremental; keeps the build output, drops earlier injections of changed files)
+    subprocess.run(["rsync", "-a", "--delete", "--exclude", "target", "--exclude", ".git", "--exclude", "verif_kani_*.rs",
+                    REPO + "/", dst + "/"], check=True)
     return dst
 
 
